@@ -122,32 +122,49 @@ const CFGS: &[Cfg] = &[
     // built-in rules visited by the parse (SOI, ASCII_DIGIT, ANY, NEWLINE, EOI): breakpoints on them must be honoured
     Cfg { id: "builtin", rule: "line", input: "7 x\n",
           grammar: "line = { SOI ~ word ~ (\" \" ~ word)* ~ NEWLINE? ~ EOI }\nword = { ASCII_DIGIT+ | other }\nother = { ANY }" },
+    // implicit skipping: WHITESPACE is entered between the elements of sequences and repetitions of non-atomic rules (and not inside `@`)
+    Cfg { id: "ws", rule: "list", input: "1 ,2",
+          grammar: "list = { item ~ (\",\" ~ item)* }\nitem = { num }\nnum = @{ ASCII_DIGIT ~ ASCII_DIGIT* }\nWHITESPACE = _{ \" \" }" },
 ];
 
 // ------------------------------------------------------------------------------------------
 // the rule visits of a parse, derived from the grammar (optimized AST) by a listener-free walk:
 // this, not the VM's listener, defines what the debugger has to report
 // ------------------------------------------------------------------------------------------
+use pest_meta::ast::RuleType;
 use pest_meta::optimizer::{OptimizedExpr, OptimizedRule};
+/// `atomic` = implicit skipping is off (the VM skips only while the state is NonAtomic)
 struct Walk<'a> { rules: &'a [OptimizedRule], input: &'a str, visits: Vec<(String, usize)> }
 impl<'a> Walk<'a> {
-    fn rule(&mut self, name: &str, pos: usize) -> Option<usize> {
+    fn has(&self, name: &str) -> bool { self.rules.iter().any(|r| r.name == name) }
+    /// Vm::skip for grammars that define WHITESPACE only: WHITESPACE* (every attempt enters the rule, the failing last one too)
+    fn skip(&mut self, pos: usize, atomic: bool) -> usize {
+        assert!(!self.has("COMMENT"), "walk: COMMENT is not supported");
+        if atomic || !self.has("WHITESPACE") { return pos; }
+        let mut p = pos;
+        while let Some(q) = self.rule("WHITESPACE", p, false) { if q == p { break; } p = q; }
+        p
+    }
+    fn rule(&mut self, name: &str, pos: usize, atomic: bool) -> Option<usize> {
         self.visits.push((name.to_owned(), pos));
         let rest = &self.input[pos..];
+        if let Some(r) = self.rules.iter().find(|r| r.name == name) {
+            let e = r.expr.clone();
+            // the trivia rules are entered atomically whatever their modifier (`$`: compound, also without skipping)
+            let inner = if name == "WHITESPACE" || name == "COMMENT" { true } else {
+                match r.ty { RuleType::Atomic | RuleType::CompoundAtomic => true, RuleType::NonAtomic => false, _ => atomic } };
+            return self.expr(&e, pos, inner);
+        }
         match name {
             "ANY" => rest.chars().next().map(|c| pos + c.len_utf8()),
             "EOI" => if rest.is_empty() { Some(pos) } else { None },
             "SOI" => if pos == 0 { Some(pos) } else { None },
             "ASCII_DIGIT" => rest.chars().next().filter(|c| c.is_ascii_digit()).map(|_| pos + 1),
             "NEWLINE" => if rest.starts_with("\r\n") { Some(pos + 2) } else if rest.starts_with('\n') || rest.starts_with('\r') { Some(pos + 1) } else { None },
-            _ => {
-                let r = self.rules.iter().find(|r| r.name == name).unwrap_or_else(|| panic!("walk: unsupported rule {}", name));
-                let e = r.expr.clone();
-                self.expr(&e, pos)
-            }
+            _ => panic!("walk: unsupported rule {}", name),
         }
     }
-    fn expr(&mut self, e: &OptimizedExpr, pos: usize) -> Option<usize> {
+    fn expr(&mut self, e: &OptimizedExpr, pos: usize, atomic: bool) -> Option<usize> {
         let rest = &self.input[pos..];
         match e {
             OptimizedExpr::Str(s) => if rest.starts_with(s.as_str()) { Some(pos + s.len()) } else { None },
@@ -155,14 +172,22 @@ impl<'a> Walk<'a> {
                 let (a, b) = (a.chars().next().unwrap(), b.chars().next().unwrap());
                 rest.chars().next().filter(|c| *c >= a && *c <= b).map(|c| pos + c.len_utf8())
             }
-            OptimizedExpr::Ident(n) => self.rule(n, pos),
-            OptimizedExpr::PosPred(x) => self.expr(x, pos).map(|_| pos),
-            OptimizedExpr::NegPred(x) => if self.expr(x, pos).is_some() { None } else { Some(pos) },
-            // no WHITESPACE / COMMENT rule in these grammars: nothing is skipped between the parts
-            OptimizedExpr::Seq(a, b) => self.expr(a, pos).and_then(|p| self.expr(b, p)),
-            OptimizedExpr::Choice(a, b) => self.expr(a, pos).or_else(|| self.expr(b, pos)),
-            OptimizedExpr::Opt(x) => Some(self.expr(x, pos).unwrap_or(pos)),
-            OptimizedExpr::Rep(x) => { let mut p = pos; while let Some(q) = self.expr(x, p) { if q == p { break; } p = q; } Some(p) }
+            OptimizedExpr::Ident(n) => self.rule(n, pos, atomic),
+            OptimizedExpr::PosPred(x) => self.expr(x, pos, atomic).map(|_| pos),
+            OptimizedExpr::NegPred(x) => if self.expr(x, pos, atomic).is_some() { None } else { Some(pos) },
+            // sequence: lhs, implicit skip, rhs
+            OptimizedExpr::Seq(a, b) => { let p = self.expr(a, pos, atomic)?; let p = self.skip(p, atomic); self.expr(b, p, atomic) }
+            OptimizedExpr::Choice(a, b) => self.expr(a, pos, atomic).or_else(|| self.expr(b, pos, atomic)),
+            OptimizedExpr::Opt(x) => Some(self.expr(x, pos, atomic).unwrap_or(pos)),
+            // repetition: e, then (skip, e)* where a round that fails gives back what its skip consumed
+            OptimizedExpr::Rep(x) => {
+                let mut p = match self.expr(x, pos, atomic) { Some(q) => q, None => return Some(pos) };
+                loop {
+                    let q = self.skip(p, atomic);
+                    match self.expr(x, q, atomic) { Some(r) => { if r == p { break; } p = r; } None => break }
+                }
+                Some(p)
+            }
             OptimizedExpr::Skip(strs) => {
                 let mut p = pos;
                 loop {
@@ -170,7 +195,7 @@ impl<'a> Walk<'a> {
                     match self.input[p..].chars().next() { Some(c) => p += c.len_utf8(), None => return None }
                 }
             }
-            OptimizedExpr::RestoreOnErr(x) => self.expr(x, pos),
+            OptimizedExpr::RestoreOnErr(x) => self.expr(x, pos, atomic),
             other => panic!("walk: unsupported expression {:?}", other),
         }
     }
@@ -196,7 +221,7 @@ fn load(cfg: &Cfg) -> Loaded {
     // the entry list the model and the oracle use comes from the grammar walk, not from the listener
     let (_, rules2) = pest_meta::parse_and_optimize(cfg.grammar).expect("grammar");
     let mut w = Walk { rules: &rules2, input: cfg.input, visits: Vec::new() };
-    let matched = w.rule(cfg.rule, 0).is_some();
+    let matched = w.rule(cfg.rule, 0, false).is_some();
     assert_eq!(matched, plain.is_ok(), "grammar walk and pest_vm disagree on the outcome of {}", cfg.id);
     let raw = w.visits.clone();
     let listener_agrees = raw == listened;
@@ -231,11 +256,11 @@ fn show_event(ev: &DebuggerEvent, ld: &Loaded) -> String {
 // the controller thread: executes the command list against the real DebuggerContext
 // ------------------------------------------------------------------------------------------
 #[derive(Clone, Debug)]
-enum Cmd { Run, Cont, Recv, Add(usize), Del(usize), AddAll, Sleep }
+enum Cmd { Run, Cont, Recv, Add(usize), Del(usize), AddAll, Sleep, LongSleep }
 
 fn parse_cmds(s: &str) -> Vec<Cmd> {
     s.split(',').filter(|x| !x.is_empty()).map(|x| match &x[..1] {
-        "R" => Cmd::Run, "K" => Cmd::Cont, "V" => Cmd::Recv, "L" => Cmd::AddAll, "S" => Cmd::Sleep,
+        "R" => Cmd::Run, "K" => Cmd::Cont, "V" => Cmd::Recv, "L" => Cmd::AddAll, "S" => Cmd::Sleep, "Z" => Cmd::LongSleep,
         "A" => Cmd::Add(x[1..].parse().unwrap()), "D" => Cmd::Del(x[1..].parse().unwrap()),
         _ => panic!("bad command {}", x),
     }).collect()
@@ -301,6 +326,7 @@ fn controller(cfg: &'static Cfg, ld: Arc<Loaded>, cap: usize, bps: Vec<usize>, c
             Cmd::Del(r) => ctx.delete_breakpoint(&ld.names[r]),
             Cmd::AddAll => ctx.add_all_rules_breakpoints().expect("grammar loaded"),
             Cmd::Sleep => std::thread::sleep(Duration::from_millis(25)),
+            Cmd::LongSleep => std::thread::sleep(Duration::from_millis(6500)),   // a controller that thinks for a while: the parse must stay stopped
         }
     }
     if !aborted {
@@ -527,7 +553,8 @@ fn free_run(cfg: &'static Cfg, ld: &Arc<Loaded>, cap: usize, bps: &[usize], cmds
     let (ld2, sh2, bps2, cmds2) = (Arc::clone(ld), Arc::clone(&sh), bps.to_vec(), cmds.to_vec());
     let th = std::thread::spawn(move || controller(cfg, ld2, cap, bps2, cmds2, sh2));
     let t0 = Instant::now();
-    while !*sh.finished.lock().unwrap() && t0.elapsed() < Duration::from_millis(6000) { std::thread::sleep(Duration::from_millis(2)); }
+    let budget = 6000 + 7000 * cmds.iter().filter(|c| matches!(c, Cmd::LongSleep)).count() as u64;
+    while !*sh.finished.lock().unwrap() && t0.elapsed() < Duration::from_millis(budget) { std::thread::sleep(Duration::from_millis(2)); }
     let status = if *sh.finished.lock().unwrap() { "FIN" } else { "STUCK" };
     with_gate(|g| { g.free = true; g.abandon = true; });
     CV.notify_all();
